@@ -105,6 +105,7 @@ type tableRun struct {
 	reg   string
 
 	panicNow bool
+	hook     func(*httpd.Store) // run once inside the next handler invocation
 }
 
 func (t *tableRun) observe(who string, routes []route, i int) httpd.HandlerFunc {
@@ -123,6 +124,11 @@ func (t *tableRun) observe(who string, routes []route, i int) httpd.HandlerFunc 
 		rec.vals = rec.vals[:0]
 		for _, n := range t.names {
 			rec.vals = append(rec.vals, s.RouteParam(n))
+		}
+		if t.hook != nil {
+			h := t.hook
+			t.hook = nil
+			h(s)
 		}
 		if t.panicNow {
 			panic("handler panic (the caller of ServeHTTP recovers, as net/http does)")
@@ -244,7 +250,11 @@ const batch = 200
 
 // runTable registers the table on a fresh Mux, serves all requests, emits the case lines.
 func runTable(e *hk.Env, routes []route, reqs []request, c *counters) {
-	t := newTable(routes)
+	emitTable(e, newTable(routes), routes, reqs, c)
+}
+
+// emitTable serves reqs on an already built table and writes the case lines (routes = what is registered on t)
+func emitTable(e *hk.Env, t *tableRun, routes []route, reqs []request, c *counters) {
 	var head strings.Builder
 	head.WriteString(strconv.Itoa(len(routes)))
 	for _, r := range routes {
@@ -581,6 +591,54 @@ func run(e *hk.Env) error {
 		e.Stats["encoded_request_line_requests_each"] = len(reqsE)
 		e.Stats["encoded_request_lines_with_RawPath_set"] = rawSet
 		e.Stats["encoded_request_lines_rejected_by_net_http"] = skipped
+	}
+
+	// ---- 3d. RE-ENTRANT use: a handler registers routes on the Mux that is serving it (sequentially, inside its own
+	// request) and dispatches again with its own writer; afterwards the table is the old routes plus the new ones.
+	// A handler that never returns (bounded wait) is a violation.
+	{
+		bases := [][]route{{{"/reg/:x", "GET"}, {"/a/*", "GET"}}, {{"/", "GET"}, {"/:p", "*"}}, {{"/a/b", "POST"}, {"/a/:x", "GET"}, {"/reg", "GET"}}}
+		lates := [][]route{{{"/late/:y", "GET"}}, {{"/a/b/c", "GET"}, {"/late/*", "*"}}, {{"/:p/:q", "GET"}}}
+		n, hung := 0, 0
+		for _, base := range bases {
+			for _, late := range lates {
+				if hung >= 2 { // two stuck handlers are enough to report
+					continue
+				}
+				all := append(append([]route{}, base...), late...)
+				t := newTable(base)
+				t.names = namesOf(all)
+				trigger := request{path: strings.NewReplacer(":x", "1", ":p", "1", "*", "r/s").Replace(base[0].pat), meth: base[0].meth}
+				t.hook = func(s *httpd.Store) {
+					for i, r := range late {
+						t.mux.Handle(r.pat, r.meth, t.observe("r"+strconv.Itoa(len(base)+i), all, len(base)+i))
+					}
+					t.mux.HandleNoRoute(t.observe("nr", all, -1))
+					// nested dispatch with the Store's own writer; what it observes is not recorded (the recorder is the outer one's)
+					saved := *t.rec
+					t.mux.ServeHTTP(s.W, &http.Request{Method: "GET", URL: &url.URL{Path: "/late/n"}, RequestURI: "/late/n", Header: http.Header{}})
+					*t.rec = saved
+				}
+				done := make(chan bool, 1)
+				go func() {
+					defer func() { done <- recover() == nil }()
+					t.mux.ServeHTTP(httptest.NewRecorder(), &http.Request{Method: trigger.meth, URL: &url.URL{Path: trigger.path}, RequestURI: trigger.path, Header: http.Header{}})
+				}()
+				select {
+				case ok := <-done:
+					if !ok {
+						e.Case("VIOL", "re-entrant_use_panicked:", fmt.Sprintf("a_handler_of_%q_that_calls_mux.Handle_/_mux.ServeHTTP_on_the_Mux_serving_it", trigger.path))
+					}
+				case <-time.After(3 * time.Second):
+					hung++
+					e.Case("VIOL", "handler-never-returned:", fmt.Sprintf("a_handler_of_%q_that_calls_mux.Handle(%q)_and_mux.ServeHTTP_on_the_Mux_serving_it_did_not_return_within_3s", trigger.path, late[0].pat))
+					continue // that goroutine is stuck inside the Mux
+				}
+				emitTable(e, t, all, fr, &total)
+				n++
+			}
+		}
+		e.Stats["tables_extended_by_a_handler_during_its_own_request"] = n
 	}
 
 	// ---- 4. random tables and paths over arbitrary bytes
